@@ -617,10 +617,10 @@ def make_dataset(rng, T=None, naming=None, nfam=None, P=None, maxleaves=8, int_i
     D = Dataset(T, naming)
     internal = [p for p in paths(T) if sub(T, p)[1]]
     if nfam is None:
-        nfam = rng.choice([1, 1, 2, 2, 3, 4, 6])
+        nfam = rng.choice([1, 1, 2, 2, 3, 4, 6]) if rng.random() > 0.04 else 0      # (sometimes no family at all: singletons only)
     fam_no = 0
     id_offset = rng.choice([0, 0, 1])
-    idless_at = rng.randint(1, nfam) if rng.random() < P.get('idless_top', 0.0) else 0
+    idless_at = rng.randint(1, nfam) if (nfam and rng.random() < P.get('idless_top', 0.0)) else 0
     for _ in range(nfam):
         for _try in range(max_tries):
             save = (ids.n, ids.h)
